@@ -57,6 +57,7 @@ type ModelVar struct {
 type VC struct {
 	Mode      string // "bv", "int", "real"
 	OpaqueMul bool   // see FuncContract.OpaqueMul
+	OpaqueDiv bool   // see FuncContract.OpaqueDiv
 	FuncName  string
 	sorts     map[string]*Sort
 	sortDecls []string
@@ -286,7 +287,7 @@ func (o *Obligation) QueryMode(withModel bool, light bool) string {
 				if light && it.heavy {
 					continue
 				}
-				if i < o.MinItem && it.note != "type range" {
+				if i < o.MinItem && it.note != "type range" && it.note != "merged container value" {
 					continue
 				}
 				any := false
